@@ -128,10 +128,24 @@ def rule_same_start(facts, rep):
             u = hir.simp({x["name"]: x["e"] for x in s[0]["fields"]}.get("utf8parser"))
             ok = hir.is_call(u, "Default::default")
         rep.check(ok, "same-start", b["path"], "one-shot-starts-like-Default", "state: State::Ground (= State::default()), fresh utf8 parser", loc(b))
+    from rules import anstyle_common as ac
     for ctor in ("strip::StripStr::new", "strip::StripBytes::new", "wincon::WinconBytes::new"):
         b = facts.body("anstream", AD + ctor)
         st = hir.stmts_of(b["hir"])
-        rep.check(len(st) == 1 and hir.is_call(st[0], "Default::default"), "same-start", b["path"], "new-is-Default", "", loc(b))
+        ok = len(st) == 1 and hir.is_call(st[0], "Default::default")
+        why = ""
+        if not ok:
+            # spelled out instead of delegating: the same value as Default::default(), by abstract evaluation of both
+            try:
+                ty = AD + ctor.rsplit("::", 1)[0]
+                inl = ("anstream", "anstyle_parse", "anstyle")
+                got = ac.eval_all(facts, "anstream", b["path"], [], inl)
+                want = ac.eval_all(facts, "anstream", f"<{ty} as core::default::Default>::default", [], inl)
+                ok = len(got) == 1 and len(want) == 1 and got[0][1] == want[0][1]
+                why = f"new() = {str(got[0][1])[:120]}; default() = {str(want[0][1])[:120]}"
+            except Unrecognised as ex:
+                why = f"not evaluable: {ex}"
+        rep.check(ok, "same-start", b["path"], "new-is-Default", why, loc(b))
     # derived Default of the adapters (no hand-written Default that starts elsewhere)
     for ty in ("anstream::adapter::strip::StripStr", "anstream::adapter::strip::StripBytes", "anstream::adapter::wincon::WinconBytes"):
         impls = [i for i in facts.items("anstream") if i["dk"] == "Impl" and i.get("trait") == "core::default::Default" and i.get("self_ty") == ty]
